@@ -1167,6 +1167,55 @@ func (m *MW) StepRestore() {
 	})
 }
 
+// StepLargeRequest: ONE mint request with a large number of outputs (more than a storage layer would
+// put into one statement or one batch), then everything is asked back through restore - before and,
+// optionally, after a restart. Every restored signature must be the one originally returned for that
+// very blinded message (the Book compares C_, amount, id, DLEQ).
+func (m *MW) StepLargeRequest(n int, restart bool) {
+	mint := m.pickMint()
+	ks := m.W.ActiveKeyset(mint)
+	m.rc.Op(fmt.Sprintf("large-request outputs=%d restart=%v", n, restart))
+	amounts := make([]uint64, n)
+	for i := range amounts {
+		amounts[i] = 1 << uint(i%3) // 1, 2, 4, 1, 2, 4, ...
+	}
+	var total uint64
+	for _, a := range amounts {
+		total += a
+	}
+	var outs []*HOutput
+	ok := false
+	m.begin()
+	m.rc.S.Run1(m.name("large"), m.W.Ext, func() {
+		q, _ := m.User.ReqMintQuote(mint, total, false)
+		if q == nil {
+			return
+		}
+		m.W.LN.PayExternal(q.Hash)
+		outs = m.W.NewOutputs(amounts, ks.ID)
+		_, r := m.User.Mint(mint, q, outs, "")
+		ok = r != nil && r.OK()
+	})
+	if !ok {
+		return
+	}
+	m.rc.S.Probe("large_request_signed")
+	if restart {
+		m.StepRestart(false)
+	}
+	m.begin()
+	m.rc.S.Run1(m.name("largers"), m.W.Ext, func() {
+		for i := 0; i < len(outs); i += 64 {
+			j := i + 64
+			if j > len(outs) {
+				j = len(outs)
+			}
+			m.User.Restore(mint, outs[i:j])
+		}
+	})
+	m.rc.Nontrivial = true
+}
+
 // StepRestart: operator restarts the mint, optionally rotating the keyset with a fee from the set.
 func (m *MW) StepRestart(allowRotate bool) {
 	mint := m.pickMint()
